@@ -384,6 +384,63 @@ def check_bulk(case, ctx):
                             "returned" if returned else "left in the parent's children"))
 
 
+# ----------------------------------------------------------------------------------- invalid children requested from threads
+def gen_ckd_threads(tier):
+    from vlib import threads as T
+    return st.fixed_dictionaries({
+        "parent": parents(), "side": st.sampled_from(["pub", "pub", "prv"]), "i": S.normal_indexes(),
+        "kind": st.sampled_from(["n-k", "n-k", "n", "max", "uniform"]), "u": st.integers(0, BIG - 1),
+        "nthreads": st.integers(2, 3), "plan": T.plans(max_run=6)})
+
+
+def check_ckd_threads(case, ctx):
+    """2..3 threads request the SAME child of one shared parent at once (another key was handled earlier in the process);
+    the PRF substitute makes that child invalid (or valid, as control): every thread must get the error (or the right child)."""
+    from vlib import threads as T
+    Prv, Pub, _ = _impl()
+    p = dict(case["parent"], c=S.case_salt(case))
+    side, i = case["side"], case["i"]
+    il = il_for(case["kind"], p["k"], case["u"])
+    out = il.to_bytes(32, "big") + b"\x44" * 32
+    rp = ref_parent(p)
+    kw = dict(chain_code=p["c"], index=p["index"], depth=p["depth"], testnet=p["testnet"], parent_fingerprint=p["pfp"])
+    other = R.Node.from_priv(p["k"] % (N - 1) + 1, p["c"])
+    call(lambda: Pub(key=other.sec(), chain_code=p["c"]).ckd(0))            # some other key first
+    node = Prv(key=p["k"].to_bytes(32, "big"), **kw) if side == "prv" else Pub(key=rp.sec(), **kw)
+    invalid = il >= N or (il + p["k"]) % N == 0
+    try:
+        rc = None if invalid else (R.ckd_priv(rp, i, prf=lambda k_, m_: out) if side == "prv" else R.ckd_pub(rp.neuter(), i, prf=lambda k_, m_: out))
+    except R.Invalid:
+        return
+    hits = []
+
+    def stub(key, msg):
+        if bytes(key) == p["c"]:
+            hits.append(1)
+            return out
+        return patch.real_prf(key, msg)
+
+    def run():
+        st_, ch = call(node.ckd, i)
+        return (st_, ch.public_key.sec() if st_ == "ok" else repr(ch))
+    with patch.prf(stub):
+        results, errors = T.run_scheduled(case["plan"], [run] * case["nthreads"], T.library_files("bip32", "keys", "helper"), ctx)
+    if not hits:
+        ctx.count("prf-substitution-not-effective: not judged")
+        ctx.nontrivial = False
+        return
+    if errors:
+        raise Violation("C18/ckd-threads/crashed", "threads raised %r" % (errors,))
+    for t in range(case["nthreads"]):
+        st_, val = results[t]
+        if invalid and st_ == "ok":
+            raise Violation("C18/ckd-threads/invalid-child-returned", "%d threads asked one %s parent for child %d (PRF output IL=%#x, %s): "
+                            "thread %d got a node with public key %s instead of an error" % (case["nthreads"], side, i, il, case["kind"], t, val.hex()))
+        if not invalid and not (side == "pub" and il == 0) and (st_ == "exc" or val != rc.sec()):
+            raise Violation("C18/ckd-threads/valid-child-wrong", "%d threads asked one %s parent for the valid child %d: thread %d got %r, "
+                            "expected %s" % (case["nthreads"], side, i, t, val, rc.sec().hex()))
+
+
 # ----------------------------------------------------------------------------------- sequences
 def gen_seq(tier):
     return st.fixed_dictionaries({
@@ -470,6 +527,12 @@ def clauses():
                "outputs as controls",
                gen=gen_bulk, classes=lambda c: ["%s:%s" % (c["side"], c["kind"])],
                n={"quick": 800, "thorough": 30000}, shards={"quick": 16, "thorough": 16}),
+        Clause("ckd-threads", check_ckd_threads,
+               "2..3 threads ask one shared parent (public or private) for the same child at once under the deterministic "
+               "line-granularity scheduler, after another key was handled in the process; the PRF substitute makes the child "
+               "invalid (zero key / infinity, IL >= n) or valid: every thread gets the error, or the reference child",
+               gen=gen_ckd_threads, classes=lambda c: ["%s:%s" % (c["side"], c["kind"])],
+               n={"quick": 400, "thorough": 12000}, shards={"quick": 16, "thorough": 16}),
         Clause("sequence", check_seq,
                "multi-level derive_path (1..5 levels, private and public) where the scripted PRF returns an invalid "
                "output at a generated level and the real HMAC elsewhere: the whole call must raise and stop there",
